@@ -329,6 +329,15 @@ def run(ctx):
             # (the else-branch of `if (low && rate)` carries the whole conjunction with polarity False)
             neg = any(LOW_S.search(k) and p is False for k, p in g if isinstance(k, str)) or any(RATE.match(k) and p is True for k, p in g if isinstance(k, str)) \
                 or any(RATE_GE.search(k) and p is False for k, p in g if isinstance(k, str))
+            # ... or the guard-clause spelling: `if (free >= threshold || !(rate >= its threshold)) return STOP;`
+            if not neg:
+                NOT_LOW = re.compile(r"\(\(%s\.swaptotal - %s\.swapused\) >= \(\(%s\.swaptotal \* this->threshold_pct_\) / 100\)\)" % (SYS, SYS, SYS))
+                NOT_RATE = re.compile(r"!\(%s\.swapout_bps >= this->swapout_bps_threshold_\)|\(%s\.swapout_bps < this->swapout_bps_threshold_\)" % (SYS, SYS))
+                for k, p in g:
+                    if isinstance(k, str) and p is True and " || " in k:
+                        parts_ = [x.strip() for x in k.strip()[1:-1].split(" || ")] if k.startswith("(") and k.endswith(")") else []
+                        if parts_ and all(NOT_LOW.fullmatch(x) or NOT_RATE.fullmatch(x) or re.fullmatch("!" + LOW.pattern[1:-1], x) for x in parts_):
+                            neg = True
             if c == "STOP":
                 reads = sorted({k for k, p in g if isinstance(k, str) and re.search(r"\.(swapused|swapout_bps)\b", k)})
                 ctx.check(neg or not reads, "swap_free:verdict-only-by-the-documented-comparison", "return_table", sf.loc(r),
